@@ -26,6 +26,7 @@ THEOREMS = [
     "C08.source_untouched", "C08.t2t_copy", "C08.delete_paths",
     "C08.frame_all_flags_step", "C08.frame_all_flags", "C08.frame_all_flags_mem",
     "C08.replace_frame_all_flags_step", "C08.replace_frame_all_flags_mem",
+    "C08.resolveFrom_objs", "C08.nothing_invented_step", "C08.nothing_invented", "C08.nothing_invented_call",
 ]
 PROOF_IMPORTS = ["BigtreeProofs.Properties.C08"]
 FLAGS = ["skippable", "overriding", "merge_children", "merge_leaves", "delete_children", "with_full_path"]
@@ -1027,7 +1028,10 @@ LEVEL_TEXT = ("Proof. Lean 4 theorems (C08.*) about a hand-written executable mo
               "hypothesis at all): the nodes that lie neither below the from-node (a SHIFT within one tree; a copy leaves its origin alone) nor below the existing destination keep their "
               "identity, path, attributes and relative order (their entry list is a sublist of the result's); "
               "replace_frame_all_flags(_step, _mem) - the same for replace_logic as a sub-multiset (the re-append loop permutes "
-              "siblings in between). "
+              "siblings in between); (4) nothing_invented(_step, _call) - for every flag combination and ANY pair list: every node of "
+              "the resulting tree is an object (identity, attributes) that was in the destination tree before, or - shift only - "
+              "in the tree the from-nodes were looked up in, or a new object whose identity was drawn from the fresh-id counter "
+              "during the call: no attribute of an existing node changes, a copy consists of new objects only. "
               "Partial in this sense: each single-pair theorem fixes one kind of edit (the other merge/override flags off; merge and "
               "override theorems are for shift onto an existing destination whose subtree is disjoint from the from-subtree; "
               "replace for delete_children=False); the combinations not covered by a theorem (e.g. copy+merge, merge onto a missing "
